@@ -214,6 +214,13 @@ def blame_buf(node, buf, pos=0):
 def check_node(rep, node, tier, idx):
     from pycomm3.exceptions import DataError
 
+    # history first: the valid values are encoded before the invalid ones are offered (a value the type has seen does not make an equal-looking
+    # one acceptable)
+    for v in node.values("quick")[:300]:
+        try:
+            node.encode(v)
+        except Exception:  # noqa - judged by C06 / C07
+            pass
     # (a) invalid values
     for bi, bad in enumerate(node.invalid_values(tier)):
         try:
